@@ -80,6 +80,14 @@ func (s *c14Stats) count(name string, n int) {
 	s.mu.Unlock()
 }
 
+func (s *c14Stats) max(name string, v int) {
+	s.mu.Lock()
+	if v > s.counts[name] {
+		s.counts[name] = v
+	}
+	s.mu.Unlock()
+}
+
 func (s *c14Stats) get(name string) int {
 	s.mu.Lock()
 	defer s.mu.Unlock()
@@ -846,6 +854,10 @@ func c14GenRounds(e *Env) []c14Round {
 	}
 	// token-bucket limiters under idle-then-burst histories (c14rate.go)
 	out = append(out, c14GenRateRounds(e)...)
+	// the same limiters under concurrent first requests of fresh addresses (c14first.go)
+	out = append(out, c14GenFirstRounds(e)...)
+	// join-code collisions with live / expired / reaped holders inside the real server (c14coll.go)
+	out = append(out, c14GenCollideRounds(e)...)
 	for i := range out {
 		out[i].ID = fmt.Sprintf("c14-%04d", i)
 	}
@@ -855,7 +867,7 @@ func c14GenRounds(e *Env) []c14Round {
 func (x *c14Run) partServer() {
 	e := x.e
 	rounds := c14GenRounds(e)
-	var sleepy, busy, rate []c14Round
+	var sleepy, busy, rate, first []c14Round
 	cfgs := map[string]bool{}
 	only := os.Getenv("VERIF_C14_KINDS") // debugging aid: comma-separated round kinds
 	for _, r := range rounds {
@@ -863,8 +875,10 @@ func (x *c14Run) partServer() {
 			continue
 		}
 		cfgs[r.Cfg.Name] = true
-		if r.Kind == "expiry" {
+		if r.Kind == "expiry" || r.Kind == "collide" {
 			sleepy = append(sleepy, r)
+		} else if strings.HasPrefix(r.Kind, "rate-first-") {
+			first = append(first, r)
 		} else if strings.HasPrefix(r.Kind, "rate-") {
 			rate = append(rate, r)
 		} else {
@@ -879,6 +893,8 @@ func (x *c14Run) partServer() {
 	// the rate-limiter histories run after the connection bursts above, not among them: their bound is
 	// sound under any load, but the tighter a burst is the smaller an over-admission it can show
 	vk.ParallelDo(len(rate), 8, func(i int) { x.runRound(rate[i]) })
+	// first-burst rounds: 16-32 goroutines each that must leave a barrier together - two rounds at a time
+	vk.ParallelDo(len(first), 2, func(i int) { x.runRound(first[i]) })
 	e.R.SetExtra("server_rounds", map[string]any{"rounds": len(rounds), "configurations": len(cfgs), "decided": x.st.get("rounds_decided")})
 	// minimum observations
 	for _, k := range []string{"sessions:burst", "receivers:burst", "wsconns:burst", "sessions:seq", "receivers:seq", "wsconns:seq", "msgsize", "msgrate", "hostleft", "expiry"} {
@@ -943,6 +959,8 @@ func (x *c14Run) runRound(r c14Round) {
 		x.roundRateSess(r, srv)
 	case "rate-ws":
 		x.roundRateWS(r, srv)
+	case "rate-first-sess", "rate-first-ws":
+		x.roundRateFirst(r, srv)
 	case "msgsize":
 		x.roundMsgSize(r, srv)
 	case "msgrate":
